@@ -209,59 +209,84 @@ def run_bounded(prop, tier, seed, ev, known):
     if not os.path.exists(modpath):
         ev['coverage']['bounded'] = None
         return violations, known_hits
-    out = os.path.join(ROOT, 'replay', f'.bounded_{prop}_{os.getpid()}.json')
-    journal = out + '.journal'
-    cmd = [sys.executable, '-m', 'vcheck.bounded_child', prop, tier, str(seed), out, journal]
-    env = dict(os.environ)
-    env['PYTHONPATH'] = ROOT + os.pathsep + env.get('PYTHONPATH', '')
+    from vcheck import overlay, propinfo
+    import shutil
+    configs = propinfo.INFO.get(prop, {}).get('configs', ['compiled'])
+    ov = overlay.make_overlay()      # current /repo sources + extension rebuilt from the current .pyx
+    merged = {'evaluations': 0, 'distinct_nontrivial': 0, 'samples': [], 'per_config': {}}
     t0 = time.time()
-    limit = 900 if tier == 'quick' else 7200
     try:
-        p = subprocess.run(cmd, env=env, timeout=limit, capture_output=True, text=True)
-        rc = p.returncode
-        err = p.stderr[-2000:]
-    except subprocess.TimeoutExpired:
-        rc, err = -999, 'bounded child timed out'
-    data = None
-    if os.path.exists(out):
-        with open(out) as f:
-            data = json.load(f)
-        os.unlink(out)
-    last = None
-    if os.path.exists(journal):
-        with open(journal) as f:
-            last = f.read()
-        os.unlink(journal)
-    if data is None:
-        if rc < 0 and rc != -999:
-            # abnormal termination (signal) of the interpreter running real tenpy code: part of every contract
-            sig = f'bounded:abnormal-termination signal={-rc}'
-            k = match_known(known, prop, sig + ' ' + (last or ''))
-            if k:
-                known_hits.append(k['what'])
-            else:
-                path = write_replay(prop, 'bounded_crash', {'property': prop, 'signal': -rc, 'last_case': last, 'stderr': err})
+        for cfg in configs:
+            out = os.path.join(ROOT, 'replay', f'.bounded_{prop}_{cfg}_{os.getpid()}.json')
+            journal = out + '.journal'
+            cmd = [sys.executable, '-m', 'vcheck.bounded_child', prop, tier, str(seed), out, journal]
+            env = dict(os.environ)
+            env['PYTHONPATH'] = ov + os.pathsep + ROOT
+            env['VERIF_OVERLAY'] = ov
+            env['VERIF_CONFIG'] = cfg
+            env.pop('TENPY_NO_CYTHON', None)
+            if cfg == 'python':
+                env['TENPY_NO_CYTHON'] = '1'
+            limit = 1200 if tier == 'quick' else 4 * 3600
+            try:
+                p = subprocess.run(cmd, env=env, timeout=limit, capture_output=True, text=True)
+                rc, err = p.returncode, p.stderr[-2000:]
+            except subprocess.TimeoutExpired:
+                rc, err = -999, 'bounded child timed out'
+            data = None
+            if os.path.exists(out):
+                with open(out) as f:
+                    data = json.load(f)
+                os.unlink(out)
+            last = None
+            if os.path.exists(journal):
+                with open(journal) as f:
+                    last = f.read()
+                os.unlink(journal)
+            pre = f'bounded[{cfg}]:'
+            if data is None:
+                if rc < 0 and rc != -999:
+                    # abnormal termination (signal) of the interpreter running real tenpy code
+                    sig = f'{pre}abnormal-termination signal={-rc} during: {last}'
+                    k = match_known(known, prop, sig)
+                    if k:
+                        if k['what'] not in known_hits:
+                            known_hits.append(k['what'])
+                    else:
+                        path = write_replay(prop, f'bounded_{cfg}_crash', {'property': prop, 'config': cfg, 'signal': -rc,
+                                                                          'last_case': last, 'stderr': err})
+                        violations.append((sig, path, ''))
+                    merged['per_config'][cfg] = {'evaluations': 0, 'crashed': True}
+                    continue
+                ev['errors'].append(f'bounded child [{cfg}] failed rc={rc}: {err[-500:]}')
+                merged['per_config'][cfg] = {'evaluations': 0, 'error': err[-300:]}
+                continue
+            for v in data['violations']:
+                sig = pre + v['signature']
+                k = match_known(known, prop, sig)
+                if k:
+                    if k['what'] not in known_hits:
+                        known_hits.append(k['what'])
+                    continue
+                path = write_replay(prop, f'bounded_{cfg}_' + v['signature'], {'property': prop, 'config': cfg, **v})
                 violations.append((sig, path, ''))
-            ev['coverage']['bounded'] = {'evaluations': 0, 'crashed': True}
-            return violations, known_hits
-        ev['errors'].append(f'bounded child failed rc={rc}: {err[-500:]}')
-        ev['coverage']['bounded'] = {'evaluations': 0, 'error': err[-500:]}
-        return violations, known_hits
-    for v in data['violations']:
-        sig = 'bounded:' + v['signature']
-        k = match_known(known, prop, sig)
-        if k:
-            if k['what'] not in known_hits:
-                known_hits.append(k['what'])
-            continue
-        path = write_replay(prop, 'bounded_' + v['signature'], {'property': prop, **v})
-        violations.append((sig, path, ''))
-    for e in data.get('errors', []):
-        ev['errors'].append('bounded: ' + e)
-    b = {k: data[k] for k in ('evaluations', 'distinct_nontrivial', 'rule', 'bounds', 'samples', 'exhaustive') if k in data}
-    b['wall_s'] = round(time.time() - t0, 1)
-    b['label'] = 'bounded stand-in (run-time contracts on the real functions); never counted as proved'
-    ev['coverage']['bounded'] = b
+            for e in data.get('errors', []):
+                ev['errors'].append(f'bounded[{cfg}]: ' + e)
+            merged['evaluations'] += data['evaluations']
+            merged['distinct_nontrivial'] += data['distinct_nontrivial']
+            merged['per_config'][cfg] = {'evaluations': data['evaluations'], 'distinct_nontrivial': data['distinct_nontrivial']}
+            for k in ('rule', 'bounds', 'exhaustive'):
+                if k in data:
+                    merged[k] = data[k]
+            if not merged['samples']:
+                merged['samples'] = data.get('samples', [])
+    finally:
+        shutil.rmtree(ov, ignore_errors=True)
+    merged['wall_s'] = round(time.time() - t0, 1)
+    merged['configurations'] = configs
+    merged['extension_build'] = 'rebuilt from the current _npc_helper.pyx, content hash ' + overlay.pyx_hash()
+    merged['label'] = 'bounded stand-in (run-time contracts on the real functions); never counted as proved'
+    ev['coverage']['bounded'] = merged
     return violations, known_hits
 
 
@@ -287,6 +312,9 @@ def main():
           'assumptions': list(info.get('assumptions', [])), 'errors': [], 'wall_s': 0.0, 'violations': 0}
     known = load_known()
     violations, hits = [], []
+    if not a.replay:
+        for f in glob.glob(os.path.join(ROOT, 'replay', f'{prop}_*.json')):
+            os.unlink(f)       # replay files are per run
     try:
         if a.only in (None, 'deductive'):
             source.clear_cache()
